@@ -172,6 +172,10 @@ const OP_STATUS: i64 = 6;
 
 /// every task gets its own durations so that no two deadlines coincide
 fn dur(t: usize, kind: u32) -> Duration {
+    if t % 7 == 6 {
+        // a timeout so long that it never fires: finite for the pool, but no deadline to wait for
+        return Duration::MAX;
+    }
     Duration::from_millis(1u64 << (3 * (t as u32 % 12) + kind))
 }
 fn timeouts_of(code: i64, t: usize) -> Timeouts {
@@ -278,7 +282,7 @@ impl World {
                 _ => None,
             };
             if let Some(d) = d {
-                if !d.is_zero() {
+                if !d.is_zero() && d != Duration::MAX {
                     let v = self.gate_deadline.get(t).cloned().unwrap_or(now + d);
                     let _ = gd.insert(*t, v);
                 }
@@ -379,7 +383,7 @@ impl World {
                         let to = timeouts_of(tk, t);
                         let wait = if use_default { timeouts_of(tk, 11).wait } else { to.wait };
                         if let Some(d) = wait {
-                            if !d.is_zero() {
+                            if !d.is_zero() && d != Duration::MAX {
                                 let _ = self.wait_deadline.insert(t, self.now() + d);
                             }
                         }
